@@ -100,6 +100,13 @@ pub enum Reached {
 // checker diverge, or whose divergence the caller is prepared to classify).
 pub fn check_library(ctx: &mut Ctx, src: &str, deep: bool) -> Reached {
     ctx.eval();
+    let flag_file = ctx.flag_file.as_ref().and_then(|f| f.try_clone().ok());
+    let set_flag = move |v: u64| {
+        if let Some(f) = &flag_file {
+            use std::os::unix::fs::FileExt;
+            let _ = f.write_at(&v.to_le_bytes(), 8);
+        }
+    };
     let ntok_guess = src.len() as u64 + 1;
     verif_hooks::reset();
     verif_hooks::set_parse_calls_cap(400 * (ntok_guess + 1) * (ntok_guess + 1) + 100_000);
@@ -116,6 +123,15 @@ pub fn check_library(ctx: &mut Ctx, src: &str, deep: bool) -> Reached {
         if !deep {
             return (Reached::Accepted, 1, true);
         }
+        // If the reference checker accepts the parsed program within its fuel, nothing in the
+        // program can make the checker diverge: a worker death during type_check is then a
+        // violation, otherwise it stays inconclusive. The flag travels through the progress file.
+        let refok = {
+            let e = crate::eterm::mirror(&term);
+            let nbe = crate::core::Nbe::new(60_000);
+            crate::typed::rcore_infer(&nbe, &e).is_ok()
+        };
+        set_flag(if refok { 1 } else { 0 });
         let (mut tc, mut dc) = (vec![], vec![]);
         match type_check(None, src, &term, &mut tc, &mut dc) {
             Ok(_) => (Reached::Accepted, 1, true),
@@ -301,12 +317,13 @@ impl Prop for C14P {
             "all byte strings of <=2 bytes; all token sequences of <=4 (quick) / <=5 (thorough) tokens over the 28 grammar terminals fed to parse() as constructed token slices; random byte strings <=64 bytes incl. invalid UTF-8; random token soups <=60 tokens; every single-token deletion, insertion and substitution (28 kinds) of every corpus program; every truncation of every corpus program at a token boundary; unbalanced/nested families to depth 200; a subset of all classes through `gram check` at the process boundary; non-trivial = distinct input that got past the tokenizer",
         );
         p.assumptions = vec![
-            "a wall-clock timeout or stack exhaustion at the process boundary is recorded as inconclusive (possible divergence written in the program), never as a violation".into(),
+            "a wall-clock timeout or stack exhaustion at the process boundary is recorded as inconclusive (possible divergence written in the program), never as a violation; an in-process worker death during type_check is a violation only when the reference checker accepts the parsed program within its fuel (then nothing in the program can make the checker diverge)".into(),
             "library stages run in the harness build of gram's sources (overflow checks and debug assertions on); the process-boundary contract is observed on the real release binary".into(),
         ];
         p.floor_evaluations = 200_000;
         p.floor_nontrivial = 20_000;
         p.case_timeout_s = 60;
+        p.flagged_death_is_violation = true;
         p
     }
     fn run_case(&self, ctx: &mut Ctx, section: &str, idx: u64) {
